@@ -427,6 +427,18 @@ def gen0(tier, rng, shard, nshards):
     for n in list(range(0, 41)) + [100, 1000, 65536]:
         if mine():
             yield "sframes", f"sframes {C.hx(C.rbytes(rng, n))}"
+    # server-side data that LOOKS size-framed (first dword = big/little-endian length of the rest, of everything, of the ciphertext, a
+    # client frame around the whole) or ends in line-break / blank bytes: it is one packet all the same - the last 16 bytes the signature
+    for n in (5, 8, 20, 21, 36, 52, 68, 100):
+        for delta in (4, 0, 16, 20, 8):
+            for order in ("big", "little"):
+                if mine() and n - delta >= 0:
+                    yield "sframes", f"sframes {C.hx((n - delta).to_bytes(4, order) + C.rbytes(rng, n - 4))}"
+        for tail in (b"\r\n", b"\n", b"\r", b" ", b"\x00", b"\n\n", b"=="):
+            if mine():
+                yield "sframes", f"sframes {C.hx(C.rbytes(rng, n - len(tail)) + tail)}"
+            if mine():
+                yield "sframes", f"sframes {C.hx(tail + C.rbytes(rng, n - len(tail)))}"
     if mine():
         yield "sframes", "sframes none"
     if mine():
